@@ -49,7 +49,7 @@ const ELEM_TYPES: &[&str] = &[
     "uint256", "uint", "address", "bool", "uint8", "bytes32", "int256", "uint128", "int", "uint16",
     "uint32", "uint64", "uint96", "uint160", "uint248", "int8", "int64", "int128", "bytes1",
     "bytes4", "bytes16", "bytes20", "bytes31", "address payable", "string", "bytes", "byte",
-    "uint24", "uint40", "uint72", "uint200", "int24", "int200", "bytes2", "bytes8", "bytes30",
+    "uint24", "uint40", "uint72", "uint200", "int24", "int200", "bytes2", "bytes8", "bytes30", "uint88", "uint168", "int88", "bytes11", "bytes21", "uint56", "uint104",
 ];
 
 const UNITS: &[&str] = &["wei", "gwei", "ether", "seconds", "minutes", "hours", "days", "weeks"];
@@ -404,6 +404,38 @@ impl<'t, 'd> Gen<'t, 'd> {
     }
 
     fn struct_def(&mut self) {
+        if self.t.chance(50) {
+            // two structs whose member widths read the same when written one after the other
+            // (16,8 / 168; 8,8 / 88; 24,8 / 248): anything keyed on such a rendering confuses them
+            let widths = [8u32, 16, 32, 64, 96, 128, 160, 248, 256];
+            let (a, b, m) = *self.t.pick(&[(16u32, 8u32, 168u32), (8, 8, 88), (24, 8, 248)]);
+            let pre: Vec<u32> = (0..self.t.below(3)).map(|_| *self.t.pick(&widths)).collect();
+            let post: Vec<u32> = (0..self.t.below(3)).map(|_| *self.t.pick(&widths)).collect();
+            for merged in [false, true] {
+                self.n_local += 1;
+                self.w(&format!("struct S{} {{", self.n_local));
+                let mut k = 0;
+                let mut field = |g: &mut Self, w: u32| {
+                    g.w(&format!("uint{w} m{k} ;"));
+                    k += 1;
+                };
+                for w in &pre {
+                    field(self, *w);
+                }
+                if merged {
+                    field(self, m);
+                } else {
+                    field(self, a);
+                    field(self, b);
+                }
+                for w in &post {
+                    field(self, *w);
+                }
+                self.w("}");
+                self.nl();
+            }
+            return;
+        }
         self.n_local += 1;
         self.w(&format!("struct S{} {{", self.n_local));
         let n = self.t.below(6);
@@ -690,7 +722,7 @@ impl<'t, 'd> Gen<'t, 'd> {
         self.n_fn += 1;
         let name = if self.t.chance(60) {
             // the same function name may well occur in several contracts (and as an overload)
-            self.t.pick(&["kill", "shutdown", "_sweep", "update", "_update", "withdraw", "\u{e9}mettre", "_\u{e9}mettre"]).to_string()
+            self.t.pick(&["kill", "shutdown", "_sweep", "update", "_update", "withdraw", "\u{e9}mettre", "_\u{e9}mettre", "C1", "C2", "C3", "Base", "Ownable"]).to_string()
         } else if self.t.chance(90) {
             format!("_f{}", self.n_fn)
         } else {
@@ -763,6 +795,8 @@ impl<'t, 'd> Gen<'t, 'd> {
             5 => self.w("emit Killed ( address ( msg . sender ) ) ;"),
             6 => self.w("require ( msg . sender != address ( 0 ) , \"zero\" ) ;"),
             7 => self.w("uint160 who = uint160 ( msg . sender ) ;"),
+            8 => self.w("require ( session ( ) . sender == owner ) ;"),
+            9 => self.w("require ( meta . origin . sender != a , \"x\" ) ;"),
             _ => {}
         }
         self.nl();
@@ -852,6 +886,12 @@ impl<'t, 'd> Gen<'t, 'd> {
                         3 => {
                             let p = self.name();
                             self.w(&p);
+                        }
+                        4 => {
+                            // a call on some object: only `abi.*`, `bytes(..)` and string literals are excluded by the statement
+                            let p = self.name();
+                            self.w(&p);
+                            self.wp(&[". toString ( )", ". toShortString ( )", ". encode ( a )", ". abi ( )", ". bytes ( )", ". decode ( a )"]);
                         }
                         _ => self.expr(3, 14),
                     }
@@ -1340,7 +1380,7 @@ impl<'t, 'd> Gen<'t, 'd> {
                 let n = self.name();
                 self.w(&n);
                 self.w(".");
-                self.wp(&["transfer", "add", "call", "push", "approve", "send", "sub", "length", "mul"]);
+                self.wp(&["transfer", "add", "call", "push", "approve", "send", "sub", "length", "mul", "toString", "toUint", "asBytes", "encode", "String", "abi"]);
                 self.w("(");
                 self.args(depth);
                 self.w(")");
